@@ -240,6 +240,71 @@ void h_body(void) {
     return spec
 
 
+def _lookup_seq(bounded):
+    """sequential tree lookup (sptrees.hpp compute_shortest_odd_cycle, non-TBB): first valid candidate of the SORTED list."""
+    log = []
+    rel = "include/parmcb/sptrees.hpp"
+    text = X.src(rel)
+    fn_body = X.body_after(text, (r"compute_shortest_odd_cycle\(const std::set<Edge> &edges,\s*typename std::enable_if<!is_tbb_enabled>::type\* = 0\)\s*", 0, 1),
+                           "sequential compute_shortest_odd_cycle")
+    i = fn_body.find("std::tuple<std::set<Edge>, WeightType, bool> min;")
+    if i < 0:
+        raise Undecided("extraction out of date: declaration of min in the sequential lookup")
+    region = fn_body[i:]
+    region = X.rewrite(region, [
+        (r"std::tuple<std::set<Edge>, WeightType, bool> min;", "cycle_t min = { 0UL, 0, 0 };", 1, "type-binding", "value-initialised tuple"),
+        (r"for \(CandidateCycle<Graph, WeightMap> c : cycles\)", "for (size_t c = 0; c < vp_nc; c++)", 1, "container-api", "range-for over the candidate list = positions"),
+        (r"std::tuple<std::set<Edge>, WeightType, bool> cc = candidate_cycle_builder\(trees, c, edges,\s*", "cycle_t cc = build(c, ", 1, "overload-resolution", "callee -> contract K11"),
+        (r"std::get<([012])>\((min|cc)\)", r"GET\1(\2)", (6, 20), "overload-resolution", "tuple fields"),
+    ], log)
+    inv = ("__CPROVER_assigns(c, min)\n"
+           "__CPROVER_loop_invariant(c <= vp_nc)\n"
+           "__CPROVER_loop_invariant(sorted_cycles ==> !min.exists)\n"
+           "__CPROVER_loop_invariant((g0 < c && FC[g0]) ==> (min.exists && min.weight <= DC[g0]))\n"
+           "__CPROVER_decreases(vp_nc - c)")
+    if not bounded:
+        region = X.splice_loop_contracts(region, {0: inv}, log)
+    fn = r"""
+#define MAXC %s
+size_t vp_nc; bool FC[MAXC + 1]; W DC[MAXC + 1]; bool sorted_cycles;
+cycle_t build(size_t c, bool use_limit, W limit)
+__CPROVER_requires(c < vp_nc)
+__CPROVER_assigns()
+__CPROVER_ensures(__CPROVER_return_value.exists == (FC[c] && (!use_limit || DC[c] <= limit)))
+__CPROVER_ensures(__CPROVER_return_value.exists ==> __CPROVER_return_value.weight == DC[c])
+;
+cycle_t lookup(size_t g0)
+__CPROVER_requires(vp_nc <= MAXC && g0 < vp_nc && sorted_cycles <= 1)
+__CPROVER_assigns()
+/* K11: a minimum-weight odd member of the collection (with the sorted list: the first one) */
+__CPROVER_ensures(FC[g0] ==> (__CPROVER_return_value.exists && __CPROVER_return_value.weight <= DC[g0]))
+{%s}
+size_t vp_in_nc, vp_in_g0;
+void h_lookup(void) {
+  size_t g0;
+  __CPROVER_assume(vp_nc <= MAXC);
+  for (size_t i = 0; i <= MAXC; i++) __CPROVER_assume(DC[i] > 0 && DC[i] < WBOUND && FC[i] <= 1);
+  /* the caller sorts the candidates by weight before it sets sorted_cycles (parmcb_sva_trees.hpp) */
+  for (size_t i = 0; i < MAXC; i++) __CPROVER_assume(!sorted_cycles || i + 1 >= vp_nc || DC[i] <= DC[i + 1]);
+  vp_in_nc = vp_nc; vp_in_g0 = g0;
+  cycle_t r = lookup(g0); (void) r;
+  __CPROVER_assert(0, "VP_REACH end of harness");
+}
+""" % ("4" if bounded else "24", region)
+    name = "K11_lookup_seq" + ("_bounded" if bounded else "")
+    spec = dict(unit=name, site="K11_lookup_seq", lang="c", source=rel + " (sequential ShortestOddCycleLookup loop)",
+                text=PRELUDE % dict(MAXN="4", MAXS="4") + fn, entry="h_lookup", enforce="lookup", replace=["build"], rewrites=log, timeout=900,
+                dropped=["the update_parities loop before the search (contract K11-parity, bounded only)"],
+                assumptions=["K11 contract of CandidateCycleBuilder::operator(); the candidate list is sorted by weight when sorted_cycles is set (done by the caller with std::sort)"],
+                trusted=["cbmc 6.11 + DFCC, SAT back end"])
+    if bounded:
+        spec.update(mode="bounded", bound="<= 4 candidates, unwound", unwind=7, functions={"tree lookup (sequential)": "bounded(<=4 candidates)"})
+    else:
+        spec.update(mode="proof", bound="loop closed by its contract; <= 24 candidates only because sortedness of the ghost table is stated by an unwound harness loop",
+                    loop_contracts=True, unwind=26, fallback=lambda: _lookup_seq(True), functions={"tree lookup (sequential)": "proved(<=24 candidates) against K11"})
+    return spec
+
+
 def units(tier):
     G = X.guarded
     T = "include/parmcb/parmcb_sva_signed_tbb.hpp"
@@ -249,4 +314,5 @@ def units(tier):
             G("K8_body_mpi_hidden", _signed_body, "mpi_hidden", M, 0, 2, "hidden", False),
             G("K8_body_mpi_all", _signed_body, "mpi_all", M, 1, 2, "all", False),
             G("K8a_chain_signed_tbb", _chain_unit, False),
-            G("K8_body_sptrees_lookup", _lookup_body, False)]
+            G("K8_body_sptrees_lookup", _lookup_body, False),
+            G("K11_lookup_seq", _lookup_seq, False)]
